@@ -199,7 +199,7 @@ def _check_handle(ctx, short: str, info, pname: str, src: str, depth: int) -> No
     if raw_fields:
         side: List[Tuple[Node, str]] = []
         closes = _handle_close_nodes(ctx, aclose, acfg, src)
-        guards = {f for (c, f) in GUARDS if c == short}
+        guards = {f for (c, f) in GUARDS if c == short} | _shared_list_fields(ctx, info)
 
         def edge(a: Node, lab: str, b: Node) -> bool:
             if lab in ("e", "p"):
@@ -236,6 +236,34 @@ def _check_handle(ctx, short: str, info, pname: str, src: str, depth: int) -> No
         ctx.fail("R04.3", aclose, f"aclose of {info.name}",
                  f"`{pname}` is only reachable through generator objects {gen_fields}; closing an unstarted "
                  f"generator runs none of its cleanup, so the iterator is never closed when the handle was not advanced")
+
+
+def _shared_list_fields(ctx, info) -> Set[str]:
+    """Fields of a handle class that are passed to tee_peer as the shared ``peers`` list
+    (guard idiom GUARDS: emptiness of that list means the last peer closed the source)."""
+    out: Set[str] = set()
+    init = info.methods.get("__init__")
+    if init is None or not ctx.pkg.has_unit("itertools.tee_peer"):
+        return out
+    peer = ctx.pkg.unit("itertools.tee_peer")
+    from . import c09
+    try:
+        P = c09._params(peer)
+    except AnalysisError:
+        return out
+    names = peer.param_names()
+    for c in ast.walk(init.node):
+        if isinstance(c, ast.Call) and norm(c.func) == "tee_peer":
+            val = None
+            for kw in c.keywords:
+                if kw.arg == P["peers"]:
+                    val = kw.value
+            idx = names.index(P["peers"])
+            if val is None and len(c.args) > idx:
+                val = c.args[idx]
+            if isinstance(val, ast.Attribute) and norm(val.value) == "self":
+                out.add(val.attr)
+    return out
 
 
 def _filter_problem(value: ast.AST) -> Optional[str]:
@@ -370,21 +398,50 @@ def r04_5(ctx) -> None:
             continue
         ctx.count("tee_finally_copies")
         entry = nodes[0]
-        removals = {n for n in nodes if n.kind == "call" and isinstance(n.ast.func, ast.Attribute)  # type: ignore[union-attr]
-                    and isinstance(n.ast.func.value, ast.Name) and n.ast.func.value.id == "peers"  # type: ignore[union-attr]
-                    and n.ast.func.attr in ("pop", "remove")}  # type: ignore[union-attr]
+        peers_name, buffer_name = _tee_names(u)
+        removals = set()
+        index_names: Set[str] = set()
+        for n in nodes:
+            if n.kind == "call" and isinstance(n.ast.func, ast.Attribute) and isinstance(n.ast.func.value, ast.Name) \
+                    and n.ast.func.value.id == peers_name and n.ast.func.attr in ("pop", "remove"):  # type: ignore[union-attr]
+                removals.add(n)
+            if n.kind == "del" and any(isinstance(t, ast.Subscript) and isinstance(t.value, ast.Name)
+                                       and t.value.id == peers_name for t in n.info.get("targets", [])):
+                removals.add(n)
         closes = {n for n in nodes if ownership._is_aclose_await(ctx, u, n, src)}
-        tests = {n for n in nodes if n.kind == "branch" and isinstance(n.ast, ast.Name) and n.ast.id == "peers"}
-        # (a) the removal is guarded by an identity test with the own buffer
+        tests = {n for n in nodes if n.kind == "branch" and isinstance(n.ast, ast.Name) and n.ast.id == peers_name}
+        # (a) the removal is by identity with the child's own buffer
         for r in removals:
-            by_identity = any(p.kind == "branch" and isinstance(p.ast, ast.Compare)
-                              and any(isinstance(o, ast.Is) for o in p.ast.ops)
-                              and "buffer" in {x.id for x in ast.walk(p.ast) if isinstance(x, ast.Name)}
-                              for p in _pred_chain(r, 4)) and r.ast.func.attr == "pop"  # type: ignore[union-attr]
+            if r.kind == "call" and r.ast.func.attr == "remove":  # type: ignore[union-attr]
+                ctx.fail("R04.5", u, r, "the buffer is removed by equality (`list.remove` compares deques by content): a "
+                         "finishing child can unregister a sibling whose buffer has equal contents, and stays "
+                         "registered itself", node=r)
+                continue
+            idx_expr = r.ast.args[0] if r.kind == "call" and r.ast.args else None  # type: ignore[union-attr]
+            if r.kind == "del":
+                t = [t for t in r.info["targets"] if isinstance(t, ast.Subscript)][0]
+                idx_expr = t.slice
+            by_identity = False
+            if isinstance(idx_expr, ast.Name):
+                index_names.add(idx_expr.id)
+                # (i) loop index under an `x is buffer` guard
+                by_identity = any(p.kind == "branch" and isinstance(p.ast, ast.Compare)
+                                  and any(isinstance(o, ast.Is) for o in p.ast.ops)
+                                  and buffer_name in {x.id for x in ast.walk(p.ast) if isinstance(x, ast.Name)}
+                                  for p in _pred_chain(r, 4))
+                # (ii) index found by next(<generator over enumerate(peers) if x is buffer>, default)
+                from asl.flow import reaching
+                for d in reaching(cfg).defs_at(r, idx_expr.id):
+                    v = d.info.get("value") if d.kind == "store" else None
+                    if isinstance(v, ast.Call) and norm(v.func) == "next" and v.args and isinstance(v.args[0], ast.GeneratorExp):
+                        g = v.args[0]
+                        conds = [c for gen in g.generators for c in gen.ifs]
+                        if any(isinstance(c, ast.Compare) and any(isinstance(o, ast.Is) for o in c.ops)
+                               and buffer_name in {x.id for x in ast.walk(c) if isinstance(x, ast.Name)} for c in conds) \
+                                and peers_name in {x.id for x in ast.walk(g.generators[0].iter) if isinstance(x, ast.Name)}:
+                            by_identity = True
             ctx.check(by_identity, "R04.5", u, r,
-                      "the child's own buffer is removed by identity (index found with `is`)" if by_identity else
-                      "the buffer is removed by equality (`list.remove` compares deques by content): a finishing child "
-                      "can unregister a sibling whose buffer has equal contents, and stays registered itself", node=r)
+                      "the child's own buffer is removed by identity (index found with `is`)", node=r)
         ctx.check(bool(removals), "R04.5", u, f"finally of tee_peer ({tag or 'normal'} exit)",
                   "a finishing child removes its buffer from the shared list")
         # (b) close only when no buffer remains, and then always (if closeable)
@@ -409,15 +466,30 @@ def r04_5(ctx) -> None:
                           witness=pretty_path(miss))
             # the emptiness test comes after the removal
             for t in tests:
-                before = find_path(entry, lambda x, t=t: x is t, avoid=lambda x: x in removals,
-                                   edge_ok=lambda a, lab, b: lab not in ("e", "p") and not (
-                                       a.kind == "snext" and lab == "stop"))
+                def found_edge(a: Node, lab: str, b: Node) -> bool:
+                    if lab in ("e", "p"):
+                        return False
+                    if a.kind == "snext" and lab == "stop":
+                        return False  # the buffer was not found (already removed)
+                    if a.kind == "branch" and isinstance(a.ast, ast.Compare) and isinstance(a.ast.left, ast.Name) \
+                            and a.ast.left.id in index_names and norm(a.ast.comparators[0]) == "None":
+                        none_edge = "t" if isinstance(a.ast.ops[0], ast.Is) else "f"
+                        return lab != none_edge  # index is None: not found
+                    return True
+
+                before = find_path(entry, lambda x, t=t: x is t, avoid=lambda x: x in removals, edge_ok=found_edge)
                 ctx.check(before is None, "R04.5", u, t,
                           "the emptiness test of the shared list follows the removal of the own buffer", node=t,
                           witness=pretty_path(before))
         else:
             ctx.fail("R04.5", u, f"finally of tee_peer ({tag or 'normal'} exit)",
                      "the source close is not conditioned on the shared buffer list being empty")
+
+
+def _tee_names(u) -> Tuple[str, str]:
+    from . import c09
+    P = c09._params(u)
+    return P["peers"], P["buffer"]
 
 
 def _pred_chain(n: Node, depth: int) -> List[Node]:
